@@ -98,6 +98,12 @@ def stepJ (j : Json) : R Op := do
   | "get_untracked" => return .getUntracked (← natF j "view")
   | "make_closure" => return .makeClosure (← natF j "view")
   | "call_closure" => return .callClosure (← natF j "closure")
+  | "make_memo" => return .makeMemo (← natF j "view")
+  | "read_memo" => return .readMemo (← natF j "memo")
+  | "provide_root" => return .provideRoot (← natF j "init")
+  | "child_owner" => return .childOwner (← natF j "owner")
+  | "provider" => return .provider (← natF j "owner") (← optF asNat j "initial") (← natF j "fallback")
+  | "use_ctx" => return .useCtx (← natF j "owner")
   | o => .error s!"unknown step op {o}"
 
 def obsJ : Obs → Json
@@ -105,6 +111,11 @@ def obsJ : Obs → Json
   | .locale l => jobj [("locale", jnat l)]
   | .view v => jobj [("view", jnat v)]
   | .closure c => jobj [("closure", jnat c)]
+  | .memo m => jobj [("memo", jnat m)]
+  | .owner o => jobj [("owner", jnat o)]
+  | .provided v o c => jobj [("view", jnat v), ("owner", jnat o), ("ctx", jnat c)]
+  | .found v c => jobj [("view", jnat v), ("ctx", jnat c)]
+  | .notFound => jobj [("not_found", Json.bool true)]
   | .bad => jobj [("bad", Json.bool true)]
 
 /-- `{"op":"ctx.ops","steps":[..]}`: observations of the cell machine and of the history specification -/
